@@ -16,7 +16,7 @@ TECHNIQUE = ('exhaustive enumeration of (source shape, src_indices form, where t
 RULE = ('index forms = every admissible form of a bounded grammar (ints, slices incl. negative steps, '
         'lists, tuples, ellipsis, non-tuple index into N-D source, flat and non-flat) for source '
         'shapes (4,), (2,3), (3,2,2); full product with the placement {connect, promotes at 1 and 2 '
-        'levels, auto-IVC, explicit-output source, implicit-state source} plus unit pairs and solver '
+        'levels (indices at one or at both levels), auto-IVC, explicit-output source, implicit-state source} plus unit pairs and solver '
         'contexts on a reduced index alphabet, plus solver scaling on the source (scalar and array '
         'ref/ref0) x placement x unit pair on every 3rd (quick) / every (thorough) index form; '
         'non-trivial = model ran and the index selects >= 2 '
@@ -89,7 +89,7 @@ def _forms(shape, tier):
     return out
 
 
-WHERE = ['connect_p', 'prom1', 'prom2', 'auto1', 'src_explicit', 'src_implicit']
+WHERE = ['connect_p', 'prom1', 'prom2', 'prom2_chain', 'auto1', 'src_explicit', 'src_implicit']
 CONTEXT = ['runonce', 'nlbgs_cycle', 'newton', 'newton_cycle']
 SHAPES = [(4,), (2, 3), (3, 2, 2)]
 
@@ -225,7 +225,7 @@ def _build_spec(case):
     units = {}
     kw = dict(topology=topo, nl=nl, ln=ln, palette=case.get('palette', 0))
     r = _np_ok(shape, idx, flat)
-    if where in ('connect_p', 'prom1', 'prom2', 'auto1'):
+    if where in ('connect_p', 'prom1', 'prom2', 'prom2_chain', 'auto1'):
         if up[0]:
             units['p'] = up[0]
             units['c1.x0'] = up[1]
@@ -238,6 +238,11 @@ def _build_spec(case):
         elif where == 'prom2':
             # indices at the inner level, a plain reversal of the flat source at the outer level
             first = dict(how='promote', chain=[(idx, flat), None])
+            hier = 'cycG' if cyc else 'allG'
+        elif where == 'prom2_chain':
+            # two promotion levels that both carry indices: a reversal of the first axis at the
+            # root (keeps the shape), then the index under test one level down
+            first = dict(how='promote', chain=[(slice(None, None, -1), False), (idx, flat)])
             hier = 'cycG' if cyc else 'allG'
         else:
             first = dict(how='promote', auto=True, chain=[(idx, flat)], src_shape_at=0)
@@ -255,7 +260,7 @@ def _build_spec(case):
         kw.update(out_shapes={'c1': shape}, conn_idx={'c2.x0': {'chain': [(idx, flat)]}},
                   units=units, kinds=kinds, hier='flat')
     if case.get('sscale'):
-        src = 'ivc.p' if where in ('connect_p', 'prom1', 'prom2') else 'c1.y'
+        src = 'ivc.p' if where in ('connect_p', 'prom1', 'prom2', 'prom2_chain') else 'c1.y'
         kw['scaling'] = {src: _sscale(case['sscale'], shape)}
     spec = models.make(**kw)
     return spec
